@@ -142,7 +142,7 @@ func (run *runner) realmConfig(i int) *router.RealmConfig {
 	c := &router.RealmConfig{
 		URI: realmURI(i), StrictURI: rc.Strict, AnonymousAuth: true, AllowDisclose: rc.Disclose,
 		MetaStrict: rc.MetaStrict, EnableMetaKill: rc.Kill, EnableMetaModify: rc.Modify,
-		RequireLocalAuthz: rc.LocalAuthz,
+		RequireLocalAuthz: rc.LocalAuthz, RequireLocalAuth: rc.LocalAuth,
 	}
 	// Realms built from one configuration share the configuration objects, as
 	// realms created from a RealmTemplate do.
@@ -345,7 +345,7 @@ func (run *runner) exec(or *OpResult, res *ImplRun) {
 		run.mu.Unlock()
 		if a, _ := wamp.AsString(w.Details["authid"]); a != "" {
 			given, _ := wamp.AsString(hello.Details["authid"])
-			if !op.Local || given == "" {
+			if !op.Local || op.AuthLocal || given == "" {
 				res.AuthIDs[op.Sess] = a
 			}
 		}
